@@ -203,7 +203,7 @@ func gen(r *Rng, tier string, emit func(c Sx)) {
 	}
 	// multi-session histories on long chains (clean shutdowns and crashes alternating)
 	r2 := r.Fork()
-	m := 26
+	m := 22
 	if tier == "thorough" {
 		m = 260
 	}
